@@ -1,16 +1,16 @@
-\* C02 leg A thorough: 2 counter replicas, <= 3 samples each on a 5-point grid, value = start {0,2}
-\* + partial sums of increments {0,1,5} (251 series per replica, 63 001 inputs); reader from the
-\* start + seek-first readers (2 targets). Leg B gets every 4th input.
+\* C02 leg A thorough: 2 counter replicas, <= 3 samples each on a 4-point grid, value = start
+\* {0,2} + partial sums of increments {0,1,5} (117 series per replica, 13 689 inputs); reader from
+\* the start + readers mixing Next with at most one Seek (2 targets). Leg B gets every 2nd input.
 SPECIFICATION Spec
 CONSTANTS InitPen = 5
-          Grid = {0, 1, 6, 11, 17}
+          Grid = {0, 1, 6, 11}
           NumReps = 2
           MaxLen = 3
           Ctr = TRUE
           Starts = {0, 2}
           Incs = {0, 1, 5}
           Targets = {1, 7}
-          EmitMod = 4
+          EmitMod = 2
           MaxSeeks = 1
           Kinds = {"f"}
 INVARIANTS C02_CounterNeverDecreases C01_StrictlyIncreasing C01_SeekIsSuffix C01_FollowsFullStream
